@@ -126,7 +126,7 @@ func defectBlock(kind string, n int, r *Rand) string {
 		// URL paths made of unusual segments (empty, ".", "..", "{}", unbalanced braces, percent
 		// signs, ...), on stand-alone methods, URL groups and JSON-RPC, with and without Tags
 		for i := 0; i < k; i++ {
-			sb.WriteString(hostilePathBlock(hostilePath(r), r.Intn(6), n*10+i))
+			sb.WriteString(hostilePathBlock(hostilePath(r), r.Intn(pathForms), n*10+i))
 		}
 	case "notation-mix":
 		// a user type of every notation and shape (regex, any, scalar, array, null, empty object, a
@@ -246,11 +246,11 @@ func pathEnumCount(maxTok int) int {
 		pw *= len(pathTokens)
 		n += pw
 	}
-	return n * 12
+	return n * 2 * pathForms
 }
 
 func genPathEnum(index int) *Project {
-	form, slash, q := index%6, (index/6)%2, index/12
+	form, slash, q := index%pathForms, (index/pathForms)%2, index/(2*pathForms)
 	l, pw := 1, len(pathTokens)
 	for q >= pw {
 		q -= pw
@@ -286,10 +286,18 @@ func hostilePathBlock(p string, form, n int) string {
 		return fmt.Sprintf("TAG @hp%d\nGET %s\n  Tags @hp%d\n  200 any\n", n, p, n)
 	case 4:
 		return fmt.Sprintf("GET %s\n  200 any\nDELETE %s\n  200 any\n", p, p)
-	default:
+	case 5:
 		return fmt.Sprintf("URL %s\n  GET\n    200 any\nPOST %s\n  200 any\n", p, p)
+	case 6:
+		// the same path served over HTTP and over JSON-RPC, HTTP first
+		return fmt.Sprintf("GET %s\n  200 any\nURL %s\n  Protocol json-rpc-2.0\n  Method m%d\n    Params\n      {}\n    Result\n      1\n", p, p, n)
+	default:
+		return fmt.Sprintf("URL %s\n  Protocol json-rpc-2.0\n  Method m%d\n    Params\n      {}\n    Result\n      1\nPUT %s\n  200 any\n", p, n, p)
 	}
 }
+
+// pathForms: the number of settings hostilePathBlock knows.
+const pathForms = 8
 
 // competingKinds: the defect kinds of which several instances compete for "which error is
 // reported" (each sits behind a map-iteration site or a first-error-wins loop). The kinds added
